@@ -149,4 +149,5 @@ def header_len(data):
 
 
 def tag_key(cls, num):
-    return (CLASS_ORDER[cls], num)
+    # the conceptual tag of an extension insertion point ('EXT') orders after every real tag
+    return (CLASS_ORDER.get(cls, 9), num)
